@@ -12,7 +12,7 @@ import sys
 
 ROOT = "/verif"
 TREE = os.environ.get("SEED_MATRIX_WORKTREE") or "/repo"
-ENV = "VERIF_EVIDENCE_DIR=/verif/out/evidence-sensitivity " + ("" if TREE == "/repo" else f"VERIF_REPO={TREE} ")
+ENV = "VERIF_NO_SHRINK=1 VERIF_EVIDENCE_DIR=/verif/out/evidence-sensitivity " + ("" if TREE == "/repo" else f"VERIF_REPO={TREE} ")
 also = []
 args = [a for a in sys.argv[1:]]
 vseeds = ["1"]
